@@ -80,7 +80,7 @@ fn run(ctx: &mut Ctx) {
             ctx.rep.case(desc.as_bytes(), want.len() > 6);
             ctx.rep.bucket(&format!("len.{}", len_bucket(want.len())));
             let base = *ctx.rng.pick(&[65_536usize, 70_000, 0x1_0000_0000, 1 << 40]);
-            for wk in [Wk::Vec, Wk::Recording, Wk::OffsetLenient(base)] {
+            for wk in [Wk::Vec, Wk::Recording, Wk::OffsetLenient(base), Wk::WhileUnwinding] {
                 match exec::encode_avp(&ca, wk) {
                     exec::EncOut::Ok(e) => compare(ctx, "avp", &format!("attr{}", a.attr), &e.bytes, &want, &desc, |at| field_at_avp(at).to_string()),
                     exec::EncOut::Panic(p) => ctx.violate(format!("C06:avp:encode-panic:{}", p.class()), format!("encoding {:?} panicked: {}", a, p.message), J::obj(vec![("value", J::s(desc.clone()))])),
@@ -101,7 +101,7 @@ fn run(ctx: &mut Ctx) {
             ctx.rep.case(&crate::monitor::hll::hash_bytes(6, &want).to_le_bytes(), want.len() > 12);
             let desc = format!("{:?}", c);
             let base = *ctx.rng.pick(&[65_536usize, 70_000, 0x1_0000_0000, 1 << 40]);
-            for wk in [Wk::Vec, Wk::OffsetLenient(base)] {
+            for wk in [Wk::Vec, Wk::OffsetLenient(base), Wk::WhileUnwinding] {
                 match exec::encode_msg(&cm, wk) {
                     exec::EncOut::Ok(e) => compare(ctx, "control", "msg", &e.bytes, &want, &desc, |at| if at < 2 { "flags".into() } else if at < 4 { "length".into() } else if at < 12 { "header".into() } else { "avps".into() }),
                     exec::EncOut::Panic(p) => ctx.violate(format!("C06:control:encode-panic:{}", p.class()), format!("encoding panicked: {}", p.message), J::obj(vec![("value", J::s(desc.clone()))])),
@@ -127,7 +127,7 @@ fn run(ctx: &mut Ctx) {
             let want = senc::message(&m).unwrap();
             let desc = format!("{:?}", d);
             ctx.rep.case(desc.as_bytes(), want.len() > 6);
-            for wk in [Wk::Vec, Wk::Recording, Wk::Presized(1500), Wk::Reused] {
+            for wk in [Wk::Vec, Wk::Recording, Wk::Presized(1500), Wk::Reused, Wk::WhileUnwinding] {
                 match exec::encode_msg(&cm, wk) {
                     exec::EncOut::Ok(e) => compare(ctx, "data", &format!("shape{}", shape), &e.bytes, &want, &desc, |at| if at < 2 { "flags".into() } else { format!("offset{}", at.min(14)) }),
                     exec::EncOut::Panic(p) => ctx.violate(format!("C06:data:encode-panic:{}", p.class()), format!("encoding panicked: {}", p.message), J::obj(vec![("value", J::s(desc.clone()))])),
